@@ -37,6 +37,7 @@ def _hint_succ(V, k):
 
 
 class CP2R(Case):
+    scopes = (1, 2, 3)
     props = ("C01", "C19")
     name = "CompoundInterval.parent_to_relative_pos[any number of blocks]"
     func = Q + "parent_to_relative_pos"
@@ -131,6 +132,7 @@ lib.LIB.setdefault("recursive_only", set()).add(DW)
 
 
 class CR2P(Case):
+    scopes = (1, 2, 3)
     props = ("C01", "C19")
     name = "CompoundInterval.relative_to_parent_pos[any number of blocks]"
     func = Q + "relative_to_parent_pos"
